@@ -480,12 +480,23 @@ fn c06(cx: &mut Ctx) {
         emit_pos(cx, b);
         pos_done += 1;
     }
+    // the FEN rendered straight after a move (MAKE lines carry `fen=`): the en-passant field depends on the
+    // move just made — special-move scenarios (double pushes beside pinned / unpinned capturers) and, below,
+    // every double push of the playouts
+    let sc = cx.n(SCENARIOS) / 3;
+    emit_scenarios(cx, sc, false, true, false);
     while pos_done < n || fen_done < nfen {
         let root = cx.root();
         let plies = cx_plies(&mut cx.rng);
         let steps = playout(&mut cx.rng, &root, plies, Style::Tactical, 3);
         for s in steps.iter() {
             let b = &s.after;
+            if let Some(m) = s.mv {
+                if classify(&s.before, m).double_push && pos_done < n {
+                    cx.sink.count("make_double_push_fen");
+                    cx.sink.emit(ops::make(&s.before, m).0);
+                }
+            }
             let partial = {
                 let w = b.castle_rights(Color::White).to_index();
                 let k = b.castle_rights(Color::Black).to_index();
